@@ -12,8 +12,8 @@ theorem nodupS_iff (l : List String) : nodupS l = true ↔ l.Nodup := by
 theorem docOkB_sound (langs : List String) (r : RepoMeta) (d : Doc) (h : docOkB langs r d = true) : DocOk langs r d := by
   unfold docOkB at h
   simp only [Bool.and_eq_true, decide_eq_true_eq, Bool.or_eq_true, bne_iff_ne, ne_eq, beq_iff_eq, nodupS_iff] at h
-  obtain ⟨⟨⟨⟨⟨⟨⟨h1, h2⟩, h3⟩, h4⟩, h5⟩, h6⟩, h7⟩, h8⟩ := h
-  refine ⟨h1, h2, h3, h4, h5, h6, fun he => by rcases h7 with h | h; exact absurd he h; exact h, ?_⟩
+  obtain ⟨⟨⟨⟨⟨⟨⟨⟨h1, h2⟩, h3⟩, h4⟩, h5⟩, h6⟩, h7⟩, h8⟩, h9⟩ := h
+  refine ⟨h1, h2, h3, h4, h5, h6, fun he => by rcases h7 with h | h; exact absurd he h; exact h, ?_, h9⟩
   rw [Bool.eq_false_iff]
   intro hany
   rw [List.any_eq_true] at hany
